@@ -57,6 +57,7 @@ def run_unit(world, unit, timeout_ms=10000, budget_s=300, canary=False):
     res.target = unit.target
     res.status = "ok"
     res.exit_sat = False
+    res.exit_unknown = False
     t0 = time.time()
     saved_kinds = dict(world.elem_kinds)
     try:
@@ -96,7 +97,11 @@ def run_unit(world, unit, timeout_ms=10000, budget_s=300, canary=False):
         if unit.canary and not res.exit_sat:
             # vacuity guard: the assumptions made on the way (preconditions, contracts of callees, lemma instances) are
             # satisfiable together at a function exit -- the postcondition `False` would fail here
-            res.exit_sat = it.path.satisfiable()
+            r_ = it.path.satisfiable()
+            if r_ is None:
+                res.exit_unknown = True
+            else:
+                res.exit_sat = r_
         if canary:
             it.check("canary", z3.BoolVal(False))
             raise StopExploration()    # one reachable exit is all the vacuity check needs
@@ -153,7 +158,7 @@ def pack(r):
         obs[k] = a
     return {"unit": r.unit, "target": r.target, "status": r.status, "obs": obs, "paths": r.paths,
             "solver_ms": r.solver_ms, "errors": r.errors, "covers": r.covers, "wall": r.wall,
-            "exit_sat": getattr(r, "exit_sat", False)}
+            "exit_sat": getattr(r, "exit_sat", False), "exit_unknown": getattr(r, "exit_unknown", False)}
 
 
 def run_units(modname, indices=None, timeout_ms=10000, budget_s=300, procs=None, canary=False):
